@@ -335,6 +335,14 @@ def generate(rng: random.Random, profile: Optional[Dict[str, Any]] = None) -> Di
                             "target": list(ins[0]["target"]), "marker": m2, "tk": "stmt",
                             "new": ["ast_stmt", rng.choice([f"{m2} = 0", f"import {m2}", f"{m2}()", f"from {m2} import x"])],
                         })
+            if explicit and exprs and rng.random() < 0.15:
+                # two halves that only parse together: 'M1(' in front of an expression and ', M2)' behind it
+                # (the text between two applications of one pass is unparsable although the combined result is fine)
+                xs, xe = plain_range(rng.choice(exprs), src, ls)
+                if "\n" not in src[xs:xe]:
+                    m1, m2 = new_marker(), new_marker()
+                    rws.append({"target": ["range", xs, xs], "marker": m1, "tk": "expr", "new": ["text", f"{m1}("], "half": True})
+                    rws.append({"target": ["range", xe, xe], "marker": m2, "tk": "expr", "new": ["text", f", {m2})"], "half": True})
             if faults_enabled["dup_rewrite"] and rng.random() < 0.25:
                 rws.append(dict(rws[0]))
             for rw in rws:
